@@ -116,14 +116,15 @@ static void run_stream(const KV *kv, const P *p)
 	for (int i = 0; i <= nch && rc == 1; i++) {
 		size_t n = i < nch ? (size_t)chunks[i] : p->msglen - off; if (i == nch && n == 0) break;
 		if (off + n > p->msglen) n = p->msglen - off;
-		size_t qs = 0; long qsv = -1; size_t ol = 0; int r;
+		size_t qs = 0; long qsv = -1; size_t ol = (size_t)-7; int r, unset = 0;       // a call that returns 1 has reported how much it wrote: the caller's variable does not keep its old value
 		if (q && n) { const uint8_t *tmp = p->msg + off; if (s_update(x, p, tmp, n, NULL, &qs) == 1) qsv = (long)qs; }
 		size_t cap = qsv >= 0 ? (size_t)qsv : n + 16 + (size_t)(strncmp(p->f, "xts", 3) ? 0 : p->unit) + (strstr(p->f, "hmac") ? 48 : 0); // no size query: the most the context can hold back plus this input
 		uint8_t *in, *out;
 		if (p->inplace) { size_t m = cap > n ? cap : n; in = vh_exact(m); out = in; memcpy(in, p->msg + off, n); }
 		else { in = vh_exact(n); memcpy(in, p->msg + off, n); out = vh_exact(cap); }
 		r = s_update(x, p, in, n, out, &ol);
-		vt_begin("Update"); vt_bytes("in", p->msg + off, n); vt_int("rc", r); vt_int("qs", qsv); vt_bytes("out", out, r == 1 ? ol : 0); vt_end();
+		if (ol == (size_t)-7) { unset = (r == 1); ol = 0; }
+		vt_begin("Update"); vt_bytes("in", p->msg + off, n); vt_int("rc", r); vt_int("qs", qsv); vt_bytes("out", out, r == 1 ? ol : 0); if (unset) vt_int("unset", 1); vt_end();
 		off += n; if (r != 1 && n) { rc = r; }
 		if (r != 1 && n) break;
 	}
